@@ -178,6 +178,12 @@ class Translator:
                     return ("own", pos)
                 return None
             if left == "exc_type":
+                if "exc_type" in binds:
+                    # parameter of an inlined __exit__ (atomic_write.close): decided statically if bound to a literal
+                    b = binds["exc_type"][0]
+                    if isinstance(b, ast.Constant):
+                        return ("const", pos == (b.value is None))
+                    return None
                 return ("excNone", pos)
             if left == "self._file":
                 return ("fileNone", pos)
@@ -351,6 +357,8 @@ class Translator:
             a, b = b, a
         if kind == "fileNone":
             return a  # no file is open yet when __enter__ runs
+        if kind == "const":
+            return a  # statically true (negation already applied)
         return ({"own": "ifOwn", "excNone": "ifExcNone", "zip": "ifZip"}[kind], a, b)
 
     def block(self, stmts, binds, stack, tail, fn):
@@ -557,6 +565,8 @@ src/cogent3/app/data_store.py (DataStoreDirectory._write) — do not edit; rewri
 
 `code`: the control structure around the file-system calls of `atomic_write.__init__` / `__enter__` / `__exit__`
 (self-method calls inlined) in the statement language of Model/AtomicProg.lean.
+`bareWrite` / `bareClose`: `atomic_write.write` while no file is open yet (the calls before `fileobj.write(text)`) and
+`atomic_write.close` (`__exit__(None, None, None)` inlined, `exc_type is None` decided statically).
 `storeWrites`: the files one record write of the directory data store puts in place, in order, with the route. -/
 namespace CogentModel.Gen.C19Program
 open CogentModel.AtomicProg CogentModel.StoreWrite
@@ -573,7 +583,7 @@ def translate(io_path, store_path=None):
     parts = {}
     try:
         tr = Translator(cls)
-        for lean, py in (("init", "__init__"), ("enter", "__enter__"), ("exit", "__exit__")):
+        for lean, py in (("init", "__init__"), ("enter", "__enter__"), ("exit", "__exit__"), ("bareWrite", "write"), ("bareClose", "close")):
             parts[lean] = tr.entry(py)
         info["preconditions"] = tr.preconditions
         info["dropped"] = tr.dropped
@@ -585,12 +595,15 @@ def translate(io_path, store_path=None):
             sw = store_writes(ast.parse(Path(store_path).read_text()))
         except TranslationError as e:
             problems.append(f"DataStoreDirectory._write: {e}")
-    if len(parts) != 3 or (store_path is not None and sw is None):
+    if len(parts) != 5 or (store_path is not None and sw is None):
         return None, info, problems  # nothing is written: the last generated file (and the driver built from it) stays
     out = [HEADER]
     for k in ("init", "enter", "exit"):
         out.append(f"def {k} : Stmt :=\n  {render(parts[k])}\n")
     out.append("def code : Code := ⟨init, enter, exit⟩\n")
+    # the bare-object protocol: `write` while no file is open yet (the calls before fileobj.write) and `close`
+    for k in ("bareWrite", "bareClose"):
+        out.append(f"def {k} : Stmt :=\n  {render(parts[k])}\n")
     if sw is not None:
         items = ", ".join(f"(.{f}, .{r})" for f, r in sw)
         out.append(f"def storeWrites : List (StoreFile × Route) :=\n  [{items}]\n")
